@@ -1,0 +1,24 @@
+//go:build verif
+
+package sbom
+
+// Exports of unexported internals for the verification harness in /verif.
+// Compiled only with `-tags verif`; adds no behaviour.
+
+// VerifCleanEdges runs cleanEdges on the node list.
+func VerifCleanEdges(nl *NodeList) { nl.cleanEdges() }
+
+// VerifReconnectOrphanNodes runs reconnectOrphanNodes on the node list.
+func VerifReconnectOrphanNodes(nl *NodeList) { nl.reconnectOrphanNodes() }
+
+// VerifNodeFlatString returns the flattened string equality and checksums are based on.
+func VerifNodeFlatString(n *Node) string { return n.flatString() }
+
+// VerifEdgeFlatString returns the flattened string of an edge.
+func VerifEdgeFlatString(e *Edge) string { return e.flatString() }
+
+// VerifPersonFlatString returns the flattened string of a person.
+func VerifPersonFlatString(p *Person) string { return p.flatString() }
+
+// VerifExtRefFlatString returns the flattened string of an external reference.
+func VerifExtRefFlatString(e *ExternalReference) string { return e.flatString() }
